@@ -196,8 +196,20 @@ def ctor(ctx, fi):
   tr = next((a for a in U.ancestors(fi.node, c) if isinstance(a, ast.Try)), None)
   ok = tr is not None and any(x is c for s in tr.body for x in ast.walk(s))
   catch_all = ok and any(h.type is None or (dotted(h.type) or '') in ('Exception', 'BaseException') for h in tr.handlers)
+  # exception translation by a context manager of the module (a class with an __exit__ that raises): what it catches and what it
+  # raises is decided by its arguments at run time, which this rule does not model
+  via_with = None
+  if not catch_all:
+    for a in U.ancestors(fi.node, c):
+      if isinstance(a, ast.With):
+        for it in a.items:
+          ce = it.context_expr
+          cls = fi.module.classes.get(ce.func.id) if isinstance(ce, ast.Call) and isinstance(ce.func, ast.Name) else None
+          ex = next((m for m in (cls.node.body if cls is not None else []) if isinstance(m, ast.FunctionDef) and m.name == '__exit__'), None)
+          if ex is not None and any(isinstance(x, ast.Raise) for x in ast.walk(ex)):
+            via_with = 'cannot classify: the PrettyMIDI constructor runs inside `with %s(...)`, whose __exit__ translates exceptions' % ce.func.id
   ctx.ob('CTOR/guarded', fi, c, bool(catch_all), 'the third-party parser runs inside a catch-all handler' if catch_all else
-         'the PrettyMIDI constructor is not inside a handler that catches every exception: parser errors escape as-is')
+         'the PrettyMIDI constructor is not inside a handler that catches every exception: parser errors escape as-is', unknown=via_with)
   conv = False
   if catch_all:
     for h in tr.handlers:
@@ -205,7 +217,7 @@ def ctor(ctx, fi):
         rs = [x for x in h.body if isinstance(x, ast.Raise)]
         conv = len(rs) == 1 and rs[0].exc is not None and isinstance(rs[0].exc, ast.Call) and U.raised_class(fi.module, rs[0].exc)[0] in ALLOWED and h.body[-1] is rs[0]
   ctx.ob('CTOR/converted', fi, tr or c, conv, 'the handler re-raises MIDIConversionError' if conv else
-         'the catch-all handler does not end by raising MIDIConversionError (it swallows or re-raises the original)')
+         'the catch-all handler does not end by raising MIDIConversionError (it swallows or re-raises the original)', unknown=via_with)
 
 
 def total_monotone(ctx, fi):
